@@ -37,8 +37,8 @@ MIN_EVALUATIONS = {"quick": 2000, "thorough": 20000}
 
 def plan(tier, seed):
     n = 16
-    shards = [dict(seed=seed, shard=i, nh=10 if tier == "quick" else 60,
-                   nd=15 if tier == "quick" else 120) for i in range(n)]
+    shards = [dict(seed=seed, shard=i, nh=40 if tier == "quick" else 100,
+                   nd=60 if tier == "quick" else 200) for i in range(n)]
     if tier == "thorough":
         shards.append(dict(seed=seed, shard=100, valgrind=True))
     return shards
